@@ -27,7 +27,7 @@ ASSUME = [
     "AuthFirstPacket reads the clock twice (registerRandom, then decryptClientInfo); the model treats a presentation as one instant, i.e. the two reads are assumed less than 1 s apart (the margin the code keeps on top of 2*tolerance)",
 ]
 
-BASE = {"W": 2, "R": 4, "H": 8, "NP": 2, "MP": 4, "MC": 2, "SK": 1, "DEV": "{}", "INV": "TypeOK AtMostOnce Remembered"}
+BASE = {"W": 2, "R": 4, "H": 8, "NP": 2, "MP": 4, "MC": 2, "SK": 1, "DEV": "{}", "CAP": 2, "MF": 0, "INV": "TypeOK AtMostOnce Remembered"}
 
 
 def _sub(**kw):
@@ -88,6 +88,9 @@ def run(ctx):
     submit("neg_retention_short", _mc, "AtMostOnce", R=1, INV="TypeOK AtMostOnce")
     submit("neg_cleaner_snapshot_swap", _mc, "AtMostOnce", DEV='{"CleanerSnapshotSwap"}', INV="TypeOK AtMostOnce")
     submit("neg_check_then_register", _mc, "AtMostOnce", DEV='{"CheckThenRegister"}', INV="TypeOK AtMostOnce")
+    submit("neg_forget_when_full", _mc, "AtMostOnce", DEV='{"ForgetWhenFull"}', MF=2, INV="TypeOK AtMostOnce")
+    if not q:  # foreign first packets take room in the faithful model too (and change nothing)
+        submit("mc_foreign", _mc, MF=3, H=5, MP=3, MC=1)
 
     # ---- 2. histories --------------------------------------------------------------------------------
     small = dict(NP=1, H=3, MP=3, MC=2)
@@ -113,6 +116,10 @@ def run(ctx):
     submit("cex_retention_short", _gen, cex=True, R=1, NP=1, H=4, MP=3, MC=2)
     # a presentation in the gap between the sweep's snapshot and its swap (needs a second block to be lost)
     submit("cex_snapshot_swap_2p", _gen, cex=True, split=True, DEV='{"CleanerSnapshotSwap"}', NP=2, H=1, MP=3, MC=1)
+    # flood histories: foreign first packets between the acceptance of a packet and its replay
+    flood_bounds = dict(NP=1, H=1, MP=2, MC=0, MF=2)
+    submit("bfs_flood", _gen, INV="TypeOK AtMostOnce", **flood_bounds)
+    submit("cex_forget_when_full", _gen, cex=True, DEV='{"ForgetWhenFull"}', **flood_bounds)
     if not q:
         submit("cex_cleaner_purges_all_2p", _gen, cex=True, DEV='{"CleanerPurgesAll"}', NP=2, H=2, MP=3, MC=1)
         submit("cex_cache_key_raw_2p", _gen, cex=True, DEV='{"CacheKeyRaw"}', NP=2, H=2, MP=3, MC=0)
@@ -136,6 +143,7 @@ def run(ctx):
                                        "would be vacuous" % (name, r.violated))
             ctx.log("%s: counter-example after %d distinct states, as required" % (name, r.distinct))
     behaviours, seen = [], set()
+    floods = []
     per_src = {}
     for name, r in res.items():
         if not (name.startswith("bfs_") or name.startswith("sim_") or name.startswith("cex_")):
@@ -146,17 +154,37 @@ def run(ctx):
             if k in seen:
                 continue
             seen.add(k)
-            behaviours.append(b)
             n += 1
+            if name in ("bfs_flood", "cex_forget_when_full"):
+                # worth a million insertions: an accepted packet, at least `cap` foreign bursts, the packet again
+                acts = [st["a"] for st in b["steps"]]
+                if acts.count("Foreign") >= b.get("cap", 2) and b["steps"][-1]["a"] == "Present" and \
+                        any(st["a"] == "Present" and st["ok"] for st in b["steps"][:-1]) and \
+                        acts.index("Foreign") > acts.index("Present"):
+                    floods.append(b)
+                continue
+            behaviours.append(b)
         per_src[name] = n
         ctx.log("%s: %d histories" % (name, n))
         if n == 0:
             raise lib.Inconclusive("TLC produced no history for %s" % name)
     inp = lib.write_lines(os.path.join(ctx.work, "c08_histories.ndjson"), behaviours)
+    per_flood_src = 1 if q else 4
+    chosen = []
+    for src in ("bfs_flood", "cex_forget_when_full"):
+        cand = [b for b in floods if b["src"] == src]
+        start = ctx.seed % max(1, len(cand))
+        chosen += (cand[start:] + cand[:start])[:per_flood_src]
+    if len(chosen) < 2:
+        raise lib.Inconclusive("TLC produced no flood history")
+    flood_inp = lib.write_lines(os.path.join(ctx.work, "c08_floods.ndjson"), chosen)
+    # 2^20 + 2^16; thorough also 2^21 + 1 and 3 * 2^20 (bounds at other powers of two would show as well)
+    flood_sizes = "1114112" if q else "1114112,2097153,3145728"
 
     # ---- 3. the code ---------------------------------------------------------------------------------
-    g = lib.run_go(ctx, "server", "TestVerifC08(Replay|Variants|Gate)", tag="TestVerifC08Main", timeout=2400,
-                   env={"VERIF_IN": inp, "VERIF_C08_CONCS": 2 if q else 4})
+    g = lib.run_go(ctx, "server", "TestVerifC08(Replay|Variants|Gate|Flood)", tag="TestVerifC08Main", timeout=2400,
+                   env={"VERIF_IN": inp, "VERIF_C08_CONCS": 2 if q else 4, "VERIF_FLOOD_IN": flood_inp,
+                        "VERIF_C08_FLOOD_SIZES": flood_sizes, "VERIF_C08_FLOOD_VIA_AUTH": 2048 if q else 8192})
     lib.collect_go(ctx, g)
     st = stress_f.result()
     if st.get("_died"):
@@ -178,6 +206,9 @@ def run(ctx):
                 gs.get("clean_steps", 0), gs.get("clean_steps_evicting", 0)))
     ctx.log("presentations that arrived while the real sweep was parked: %d (%d queued on the lock, %d ran during the sweep)" % (
         gs.get("early_presentations", 0), gs.get("early_queued_on_lock", 0), gs.get("early_ran_during_sweep", 0)))
+    ctx.log("flood: %d runs, %d foreign first packets, %.1f s, heap peak %d MB" % (
+        gs.get("flood_runs", 0), gs.get("flood_foreign_packets", 0), gs.get("flood_wall_ms", 0) / 1000.0,
+        gs.get("flood_heap_mb_max", 0)))
     ctx.log("variants still authenticating on their own: %d; gate: %d schedule points x %d rounds, second presenter waited "
             "%d / returned %d; stress rounds %s" % (
                 gs.get("variants_still_authenticating", 0), gs.get("gate_points", 0), gs.get("gate_rounds", 0),
@@ -202,7 +233,7 @@ def run(ctx):
         "rule": "histories = every maximal path of ReplayCacheGen for the small bounds (%s; either byte variant, clean-ups at "
                 "any phase, client skew -1..+1) + TLC -simulate paths of the model-checked bounds (2 blocks, clock 0..8, "
                 "4 presentations, 2 clean-ups) + every counter-example history of the three deviating models (same small "
-                "bounds, plus those of the snapshot-swap sweep) + histories whose sweeps are CleanBegin/CleanVisit/CleanEnd with time passing in between; each is run under %s of the 8 tick concretisations (one-block counter-example histories: all 8), transports alternating; where a presentation directly follows a sweep, one more run lets it ARRIVE while the real sweep is parked at a WorldState.Now() call (it queues on the lock) and releases the sweep afterwards; non-trivial = "
+                "bounds, plus those of the snapshot-swap sweep) + histories whose sweeps are CleanBegin/CleanVisit/CleanEnd with time passing in between; each is run under %s of the 8 tick concretisations (one-block counter-example histories: all 8), transports alternating; where a presentation directly follows a sweep, one more run lets it ARRIVE while the real sweep is parked at a WorldState.Now() call (it queues on the lock) and releases the sweep afterwards; flood histories (an accepted packet, 2^20+2^16 and more distinct foreign first packets inside its window, the packet again) run on a real State with a hand-driven clock; non-trivial = "
                 "a block is presented again after it was accepted (histories), an altered copy that still authenticates "
                 "on its own (variants), every gate/stress round; distinct = distinct action lists / alterations" % (
                     "1 block: clock 0..3 x 3 presentations x 2 clean-ups, clock 0..4 x 3 x 1" if q else
@@ -215,7 +246,7 @@ def run(ctx):
         "counter_examples_of_deviating_models_replayed": sum(v for k, v in gs.items() if k.startswith("cex_")),
         "counter_examples_reproduced_on_code": reproduced,
         "exhaustive": True,
-        "checker_cmd": "tlc ReplayCache.tla (mc + 5 negative configs) / ReplayCacheGen.tla + go test -run TestVerifC08",
+        "checker_cmd": "tlc ReplayCache.tla (mc + 6 negative configs) / ReplayCacheGen.tla + go test -run TestVerifC08",
         "harness_stats": {"main": gs, "stress": st.get("stats", {})},
     }
     return lib.finish(ctx, LEVEL, cov, ASSUME)
@@ -225,7 +256,7 @@ def replay(ctx, path):
     doc = json.load(open(path))
     kind = (doc.get("replay") or {}).get("kind", "history")
     test = {"history": "TestVerifC08Replay", "variant": "TestVerifC08Variants", "gate": "TestVerifC08Gate",
-            "stress": "TestVerifC08Stress"}.get(kind, "TestVerifC08Replay")
+            "stress": "TestVerifC08Stress", "sweepstress": "TestVerifC08SweepStress", "flood": "TestVerifC08Flood"}.get(kind, "TestVerifC08Replay")
     res = lib.run_go(ctx, "server", test, env={"VERIF_REPLAY": os.path.abspath(path)}, extra_args=["-v"])
     print(open(os.path.join(res["_out_dir"], "go.out")).read())
     for v in res.get("violations", []):
